@@ -20,7 +20,10 @@ HOSTILE = ["", " ", "'", '"', "'ab", '"ab', "(", ")", "[", "]", "{", "\\", "-", 
            # an empty-mark on fields that must not be empty, empty / missing choices
            "x", " X ", "''", '""', "a,''", "a,,b", ",a", "a,",
            # text no file can hold but the API accepts (lone surrogates), continuation lines
-           "\ud800", "a\udfffb", "\\\nid < 3", "id \\\n< 3", "\\\n"]
+           "\ud800", "a\udfffb", "\\\nid < 3", "id \\\n< 3", "\\\n",
+           # what CPython's tokenizer, re and int-to-text conversion refuse in their own ways
+           "x\r\u00e9", "\r\u00a0", "\t\t@|\n\x00", " 1\n\x00", "0x" + "f" * 5000, "0...0x" + "f" * 4000, "a{4294967296}", "a{99999999999}", "(?u)(?a)x",
+           "(" * 3000 + ")" * 3000, "2.5", "1.5...3.7"]
 
 BASE_CIDS = {
     "delimited": [["D", "Format", "Delimited"], ["D", "Header", "1"], ["D", "Encoding", "utf-8"], ["D", "Allowed characters", "32..."],
@@ -117,7 +120,9 @@ def run(ctx):
         if itag not in ("ok", "iface") and not itag.startswith("data:"):
             ctx.violation(cid_signature(fmt, rows, i, j, itag), "CID cell %s = %r makes Cid.read raise %s" % (kind, h, impl), case)
         mtag = mo.split("@")[0].split(" ")[0]
-        if mtag == "unsupported" or any(0xD800 <= ord(ch_) <= 0xDFFF for ch_ in h):
+        if mtag == "unsupported" or any(0xD800 <= ord(ch_) <= 0xDFFF for ch_ in h) or ("0x" in h and len(h) > 3600) or h.startswith("(" * 500):
+            # (hexadecimal numbers beyond 4300 decimal digits: the code refuses them since 10334a3, the model's `int(text, 0)` has no such limit -
+            # outside `BoundedLimits`, the hypothesis of C01_parse_render; thousands of nested groups: CPython's parser gives up, the model's does not)
             # (lone surrogates are no characters of the model's strings: the statement is checked above, the class is not compared)
             ctx.skip(case)
         elif mtag != itag:
@@ -218,6 +223,7 @@ def run(ctx):
                                 with validio.Writer(enc_cid, os.path.join(enc_tmp, "out.txt")) as writer:
                                     writer.write_row(["xy", "42"])
                                     writer.write_row(["\u00e9\u20ac", "43"])
+                                    writer.write_row([".." if fmt_name == "Fixed" else "a..b", "44"])
                             outcomes.append((api, "ok"))
                         except Exception as error:  # noqa
                             outcomes.append((api, core.classify_exception(error)))
@@ -228,6 +234,65 @@ def run(ctx):
                                       {"encoding": enc_name, "format": fmt_name, "api": api, "outcome": tag})
     finally:
         shutil.rmtree(enc_tmp, ignore_errors=True)
+    # ---- secondary entry points of the API on plain, valid input: nothing but the result or a cutplace error ---------------------------
+    from cutplace import checks as cutplace_checks, rowio as cutplace_rowio
+    api_tmp = tempfile.mkdtemp(prefix="c10-api-")
+    try:
+        api_cid_path = os.path.join(api_tmp, "cid.csv")
+        with open(api_cid_path, "w", encoding="utf-8") as api_file:
+            api_file.write("d,format,delimited\nf,v\n")
+
+        def api_writer_from_path():
+            with validio.Writer(api_cid_path, io.StringIO()) as writer:
+                writer.write_row(["x"])
+
+        def api_add_check():
+            api_cid = interface.Cid()
+            api_cid.read("c10-api", [["D", "Format", "Delimited"], ["F", "v"]])
+            api_cid.add_check(cutplace_checks.IsUniqueCheck("unique v", "v", ["v"]))
+            list(validio.rows(api_cid, io.StringIO("a\nb\n")))
+
+        def api_stream(factory, text, fixed_cid_rows):
+            def run_():
+                stream_cid = interface.Cid()
+                stream_cid.read("c10-api", fixed_cid_rows)
+                with factory() as stream:
+                    stream.write(text)
+                    stream.seek(0)
+                    list(validio.rows(stream_cid, stream))
+            return run_
+
+        def api_xlsx_write_rows():
+            path = os.path.join(api_tmp, "out.xlsx")
+            with cutplace_rowio.XlsxRowWriter(path) as writer:
+                writer.write_rows([["a", "b"], ["c", "d"]])
+            if list(cutplace_rowio.excel_rows(path)) != [["a", "b"], ["c", "d"]]:
+                raise AssertionError("xlsx written with write_rows() reads back differently")
+
+        fixed_rows_cid = [["D", "Format", "Fixed"], ["D", "Line delimiter", "LF"], ["F", "a", "", "", "2", "Text", ""]]
+        delimited_rows_cid = [["D", "Format", "Delimited"], ["F", "a"]]
+        entry_points = {
+            "Writer(cid_path)": api_writer_from_path, "Cid.add_check": api_add_check, "XlsxRowWriter.write_rows": api_xlsx_write_rows,
+            "rows(SpooledTemporaryFile):fixed": api_stream(lambda: tempfile.SpooledTemporaryFile(mode="w+", newline=""), "ab\ncd\n", fixed_rows_cid),
+            "rows(SpooledTemporaryFile):fixed:malformed": api_stream(lambda: tempfile.SpooledTemporaryFile(mode="w+", newline=""), "ab\ncdX", fixed_rows_cid),
+            "rows(TemporaryFile):fixed:malformed": api_stream(lambda: tempfile.TemporaryFile(mode="w+", newline=""), "ab\ncdX", fixed_rows_cid),
+            "rows(TemporaryFile):delimited:malformed": api_stream(lambda: tempfile.TemporaryFile(mode="w+", newline=""), 'a\n"b', delimited_rows_cid),
+        }
+        for entry_name, entry in entry_points.items():
+            try:
+                entry()
+                tag = "ok"
+            except Exception as error:  # noqa
+                tag = core.classify_exception(error)
+                try:
+                    str(error)   # the text of a cutplace error must be printable too
+                except Exception as text_error:  # noqa
+                    tag = "text-of-error:" + core.classify_exception(text_error)
+            ctx.count(key=("api", entry_name), branch="api:%s" % tag.split(":")[0])
+            if tag != "ok" and not core.is_cutplace_tag(tag):
+                ctx.violation("C10:api:%s:%s" % (entry_name, tag), "%s raises %s" % (entry_name, tag), {"entry": entry_name, "outcome": tag})
+    finally:
+        shutil.rmtree(api_tmp, ignore_errors=True)
     # ---- end-of-data expressions: DistinctCount rules whose evaluation fails only for particular counts -----------------
     END_EXPRESSIONS = ["% (count - 2) == 0", "/ (count - 1) > 0", "< [5, 6, 7][count]", "== {0: 0, 1: 1}[count]", "< int('1' * (1 + count * 2200))",
                        "< 3 if count < 3 else count.missing", "< 2 or undefined_name", "< 10 and count / (count - 3) != 2", "<= (1, 2)[count - 1]", "< 5"]
